@@ -67,23 +67,29 @@ Inductive case :=
      [REQUEST_URI; REQUEST_URI_RAW; QUERY_STRING; REQUEST_BASENAME; REQUEST_FILENAME; REQUEST_LINE],
      URLENCODED_ERROR set *)
   | CQ (uri : bytes) (parse : option (bytes * bytes * bytes)) (limit : nat)
-       (o_get o_get_names o_args o_args_names : list kv) (o_size : nat) (o_singles : list bytes) (o_uerr : bool)
+       (o_get : list kv) (o_views : option (list kv * list kv * list kv)) (o_size : nat) (o_singles : list bytes) (o_uerr : bool)
   (* Transaction.AddRequestHeader sequence: observed REQUEST_HEADERS, REQUEST_HEADERS_NAMES,
      REQUEST_COOKIES, REQUEST_COOKIES_NAMES, REQBODY_PROCESSOR *)
-  | CH (hs : list kv) (o_headers o_hnames o_cookies o_cnames : list kv) (o_rbp : bytes)
+  | CH (hs : list kv) (o_headers o_cookies : list kv) (o_names : option (list kv * list kv)) (o_rbp : bytes)
   (* headers, optional ctl:requestBodyProcessor, body through WriteRequestBody + ProcessRequestBody;
      jt = the tree the JSON body was serialised from (canon: by the canonical serialiser);
      cmp_args = ARGS_POST is modelled for this case *)
   | CB (access force : bool) (depth : nat) (hs : list kv) (ctl : option bytes) (body : bytes)
        (jt : option json) (canon : bool) (ext_err : bool) (cmp_args : bool)
-       (o_post o_post_names : list kv) (o_body o_len o_rbp : bytes) (o_err : bool).
+       (o_post : list kv) (o_post_names : option (list kv)) (o_body o_len o_rbp : bytes) (o_err : bool).
 
 Definition cookie_ord (raw : bytes) : gmap := parse_cookies raw.
 
-Definition check_q (t : txv) (o_get o_get_names o_args o_args_names : list kv) (o_size : nat)
+(* the derived views (ARGS_GET_NAMES, ARGS, ARGS_NAMES; *_NAMES) are printed for one case in
+   four only, to keep the case files small *)
+Definition check_q (t : txv) (o_get : list kv) (o_views : option (list kv * list kv * list kv)) (o_size : nat)
     (o_singles : list bytes) (o_uerr : bool) : bool :=
-  ms_eqb (cm_find_all (v_args_get t)) o_get && ms_eqb (cm_names (v_args_get t)) o_get_names &&
-  ms_eqb (var_args t) o_args && ms_eqb (var_args_names t) o_args_names &&
+  ms_eqb (cm_find_all (v_args_get t)) o_get &&
+  match o_views with
+  | Some (o_get_names, o_args, o_args_names) =>
+    ms_eqb (cm_names (v_args_get t)) o_get_names && ms_eqb (var_args t) o_args && ms_eqb (var_args_names t) o_args_names
+  | None => true
+  end &&
   Nat.eqb (var_args_combined_size t) o_size &&
   list_bytes_eqb [v_uri t; v_uri_raw t; v_query_string t; v_basename t; v_filename t; v_request_line t] o_singles &&
   Bool.eqb (v_urlencoded_error t) o_uerr.
@@ -93,7 +99,7 @@ Definition ok (c : case) : bool :=
   | CP q sep obs => gmap_eqb (parse_query q sep) obs && gmap_eqb obs (parse_query q sep)
   | CK raw obs => gmap_eqb (parse_cookies raw) obs && gmap_eqb obs (parse_cookies raw)
   | CE l q ck => bytes_eqb (enc_query l) q && bytes_eqb (enc_cookie l) ck
-  | CQ uri parse limit o_get o_get_names o_args o_args_names o_size o_singles o_uerr =>
+  | CQ uri parse limit o_get o_views o_size o_singles o_uerr =>
     let u := dc_cut_fragment uri in
     let pu := opt_uri parse in
     (* the partial specification of url.ParseRequestURI agrees with the real answer *)
@@ -103,11 +109,14 @@ Definition ok (c : case) : bool :=
     let groups := match pu with Some p => parse_query (u_rawquery p) 38 | None => [] end in
     existsb (fun ord =>
       check_q (process_uri lower_ascii (fun _ => pu) limit (fun _ => ord) txv_empty uri (str "GET"%string) (str "HTTP/1.1"%string))
-              o_get o_get_names o_args o_args_names o_size o_singles o_uerr) (orders groups)
-  | CH hs o_headers o_hnames o_cookies o_cnames o_rbp =>
+              o_get o_views o_size o_singles o_uerr) (orders groups)
+  | CH hs o_headers o_cookies o_names o_rbp =>
     let t := fold_left (fun t h => add_request_header lower_ascii cookie_ord t (fst h) (snd h)) hs txv_empty in
-    ms_eqb (cm_find_all (v_headers t)) o_headers && ms_eqb (cm_names (v_headers t)) o_hnames &&
-    ms_eqb (cm_find_all (v_cookies t)) o_cookies && ms_eqb (cm_names (v_cookies t)) o_cnames &&
+    ms_eqb (cm_find_all (v_headers t)) o_headers && ms_eqb (cm_find_all (v_cookies t)) o_cookies &&
+    match o_names with
+    | Some (o_hnames, o_cnames) => ms_eqb (cm_names (v_headers t)) o_hnames && ms_eqb (cm_names (v_cookies t)) o_cnames
+    | None => true
+    end &&
     bytes_eqb (v_rbp t) o_rbp
   | CB access force depth hs ctl body jt canon ext_err cmp_args o_post o_post_names o_body o_len o_rbp o_err =>
     let t0 := fold_left (fun t h => add_request_header lower_ascii cookie_ord t (fst h) (snd h)) hs txv_empty in
@@ -118,7 +127,9 @@ Definition ok (c : case) : bool :=
     existsb (fun ord =>
       let o := mk_borc (parse_query body 38) jt (fun _ => ord) ext_err in
       let t := process_request_body lower_ascii cfg o t1 body in
-      (if cmp_args then ms_eqb (cm_find_all (v_args_post t)) o_post && ms_eqb (cm_names (v_args_post t)) o_post_names else true) &&
+      (if cmp_args then ms_eqb (cm_find_all (v_args_post t)) o_post &&
+                        match o_post_names with Some n => ms_eqb (cm_names (v_args_post t)) n | None => true end
+       else true) &&
       bytes_eqb (v_request_body t) o_body && bytes_eqb (v_request_body_length t) o_len &&
       bytes_eqb (v_rbp t) o_rbp && Bool.eqb (v_reqbody_error t) o_err) (orders res)
   end.
